@@ -345,6 +345,10 @@ func Supervise(spec *PropertySpec, tier string, verifSeed uint64, budgetOverride
 	eng := spec.Engine()
 	prop := spec.Property
 	evidencePath := filepath.Join(VerifDir, "evidence", prop+".json")
+	if d := os.Getenv("VERIF_EVIDENCE_DIR"); d != "" {
+		// a run against another tree (VERIF_REPO) must not overwrite the evidence about /repo
+		evidencePath = filepath.Join(d, prop+".json")
+	}
 	os.MkdirAll(filepath.Dir(evidencePath), 0o755)
 	os.MkdirAll(filepath.Join(VerifDir, "replays"), 0o755)
 
